@@ -28,7 +28,7 @@ def replaceMatch(match: Match, replacement: str, expand: Optional[Expand] = None
         if i > match.re.groups:
             options.errorCallback('undefined replacement group: ' + m[0])
             return ''
-        result = match[i]
+        result = match[i] or ''  # A group that did not participate in the match is blank.
         # match group text.
         return replaceInline(result, expand)
     return re.sub(r'(\${1,2})(\d)', repl, replacement)
